@@ -138,6 +138,9 @@ const EXTRA_KINDS: [&str; 5] = ["garbage-wrong-src", "dup-question", "wrong-ip-p
 #[derive(Clone, Debug)]
 struct UdpCase {
     case_rand: bool,
+    /// the request is a caller-assembled `Message` handed to `DnsRequest::new` (no
+    /// `original_query`, the name goes out exactly as written) instead of `DnsRequest::from_query`
+    hand_built: bool,
     qname: String,
     qtype: u16,
     edns: bool,
@@ -150,13 +153,14 @@ struct UdpCase {
 
 impl UdpCase {
     fn to_json(&self) -> Value {
-        json!({"mode": "udp", "case_rand": self.case_rand, "qname": self.qname, "qtype": self.qtype, "edns": self.edns,
+        json!({"mode": "udp", "case_rand": self.case_rand, "hand_built": self.hand_built, "qname": self.qname, "qtype": self.qtype, "edns": self.edns,
                "max_retries": self.max_retries, "retry_ms": self.retry_ms, "timeout_ms": self.timeout_ms,
                "tx": self.tx.iter().map(|t| t.iter().map(|(k, g)| json!([k, g])).collect::<Vec<_>>()).collect::<Vec<_>>()})
     }
     fn from_json(v: &Value) -> UdpCase {
         UdpCase {
             case_rand: v["case_rand"].as_bool().unwrap_or(false),
+            hand_built: v["hand_built"].as_bool().unwrap_or(false),
             qname: v["qname"].as_str().unwrap_or("www.example.test.").to_string(),
             qtype: v["qtype"].as_u64().unwrap_or(1) as u16,
             edns: v["edns"].as_bool().unwrap_or(true),
@@ -372,7 +376,14 @@ fn run_udp(c: &UdpCase) -> UdpObs {
             opts.use_edns = c.edns;
             opts.retry_interval = Duration::from_millis(c.retry_ms);
             let name = Name::from_ascii(&c.qname).unwrap();
-            let req = DnsRequest::from_query(Query::new(name, RecordType::from(c.qtype)), opts);
+            let req = if c.hand_built {
+                let mut m = hickory_proto::op::Message::query();
+                m.queries.push(Query::new(name, RecordType::from(c.qtype)));
+                m.metadata.recursion_desired = true;
+                DnsRequest::new(m, opts)
+            } else {
+                DnsRequest::from_query(Query::new(name, RecordType::from(c.qtype)), opts)
+            };
             let t0 = tokio::time::Instant::now();
             let r = stream.send_message(req).first_answer().await;
             let elapsed = t0.elapsed();
@@ -443,6 +454,9 @@ fn check_udp(rep: &mut Reporter, c: &UdpCase) {
     if n_forged >= 1 {
         rep.nontrivial(fnv64(case.to_string().as_bytes()));
         rep.count("udp_nontrivial");
+        if c.hand_built {
+            rep.count(if c.case_rand { "udp_nontrivial_hand_built/case-rand-on" } else { "udp_nontrivial_hand_built/case-rand-off" });
+        }
     }
     rep.add("udp_sockets", o.sockets.len() as u64);
     rep.max("udp_max_transmissions", o.sockets.len() as f64);
@@ -586,6 +600,7 @@ fn udp_workloads(ctx: &Ctx, rep: &mut Reporter) {
                     }
                     let c = UdpCase {
                         case_rand,
+                        hand_built: false,
                         qname: r.pick(&["www.example.test.", "a.b.", "MiXed.Case.Example.", "x1.y2.z3.test."]).to_string(),
                         qtype: *r.pick(&[1u16, 28, 16]),
                         edns: r.bool(),
@@ -596,6 +611,13 @@ fn udp_workloads(ctx: &Ctx, rep: &mut Reporter) {
                     };
                     check_udp(rep, &c);
                     rep.count("u1_cases");
+                    if idx % 3 == 0 {
+                        // the same schedule once more with a caller-assembled request
+                        let mut h = c.clone();
+                        h.hand_built = true;
+                        check_udp(rep, &h);
+                        rep.count("u1_cases_hand_built");
+                    }
                   }
                 }
             }
@@ -624,6 +646,7 @@ fn udp_workloads(ctx: &Ctx, rep: &mut Reporter) {
             }
             let c = UdpCase {
                 case_rand: r.bool(),
+                hand_built: r.chance(1, 4),
                 qname: r.pick(&["www.example.test.", "a.b.", "MiXed.Case.Example.", "x1.y2.z3.test.", "a-rather-long-label-to-randomise.sub.domain.example.org."]).to_string(),
                 qtype: *r.pick(&[1u16, 28, 16, 255]),
                 edns: r.bool(),
@@ -1539,6 +1562,8 @@ fn main() {
     rep.must("udp_model_err/case-mismatch", 500);
     rep.must("udp_model_err/timeout", 500);
     rep.must("udp_model_ok", 5000);
+    rep.must("udp_nontrivial_hand_built/case-rand-on", 1000);
+    rep.must("udp_nontrivial_hand_built/case-rand-off", 1000);
     rep.must("udp_recv_per_socket/3", 1000);
     rep.must("mux_sends_with_2plus_in_flight", 5000);
     rep.must("mux_close_with_pending", 300);
